@@ -9,9 +9,13 @@ EXTENDS VBFTPool, Json, VBFTConst   \* VBFTConst: thresholds and roles extracted
 
 Proposers1 == {1}
 Proposers2 == {1, 2}
+CcNone == {FALSE}
+CcBoth == BOOLEAN
 
 CONSTANTS Proposers,     \* proposers whose blocks messages may refer to
           MaxProp, MaxEnd, MaxCom, MaxForged, MaxClaims, ForgePok,
+          CcChoices,     \* endorse messages with / without the endorser's cross-chain-msg signature (an attribute the pool's
+                         \* duplicate check must ignore: the same endorsement is one entry whatever extra signatures it carries)
           Canonical      \* TRUE: reduced universe for the larger N (non-empty blocks only, endorse messages in increasing
                          \* endorser order, commit messages claim an initial segment of the non-proposer peers)
 
@@ -41,13 +45,13 @@ FeedProposal(p) ==
   /\ cnt' = [cnt EXCEPT !.prop = @ + 1]
   /\ act' = [name |-> "FeedProposal", p |-> p, v |-> 0]
 
-FeedEndorse(i, p, e, ok) ==
+FeedEndorse(i, p, e, ok, cc) ==
   /\ cnt.end < MaxEnd
   /\ Canonical => (i > LastEndorser /\ i \notin Proposers)
   /\ ok \/ cnt.forged < MaxForged
   /\ pool' = NewEndorse(pool, i, p, e, ok)
   /\ cnt' = [cnt EXCEPT !.end = @ + 1, !.forged = IF ok THEN @ ELSE @ + 1]
-  /\ act' = [name |-> "FeedEndorse", i |-> i, p |-> p, v |-> 0, e |-> e, ok |-> ok]
+  /\ act' = [name |-> "FeedEndorse", i |-> i, p |-> p, v |-> 0, e |-> e, ok |-> ok, cc |-> cc]
 
 FeedCommit(m) ==
   /\ cnt.com < MaxCom
@@ -59,7 +63,7 @@ FeedCommit(m) ==
 
 Next ==
   \/ \E p \in Proposers : FeedProposal(p)
-  \/ \E i \in Peers, p \in Proposers, e \in Emp, ok \in BOOLEAN : FeedEndorse(i, p, e, ok)
+  \/ \E i \in Peers, p \in Proposers, e \in Emp, ok \in BOOLEAN, cc \in CcChoices : FeedEndorse(i, p, e, ok, cc)
   \/ \E m \in CommitMsgs \cup ForgedCommitMsgs : FeedCommit(m)
 Spec == Init /\ [][Next]_vars
 
